@@ -91,16 +91,24 @@ fn worker(args: &[String]) -> i32 {
     }
     quiet_panics();
     let keys = known_keys(prop);
-    let known = Sw::from_names(&keys.iter().map(|s| s.as_str()).collect::<Vec<_>>());
+    let mut known = Sw::from_names(&keys.iter().map(|s| s.as_str()).collect::<Vec<_>>());
+    if std::env::var("VERIF_CLASSIFY_ALL").is_ok() {
+        // diagnosis only: classify against every as-implemented switch (never suppresses anything)
+        known = Sw(Sw::NAMES.iter().fold(0, |a, (_, b)| a | b));
+    }
     let Some(units) = props::units(prop, tier) else {
         eprintln!("unknown property {prop}");
         return 2;
     };
     let mut results = vec![];
+    // progress marker: one fixed-width record overwritten in place (a single pwrite per case, no
+    // create/truncate), so that the orchestrator can attribute a process death to a case
+    let mfile = std::fs::OpenOptions::new().create(true).write(true).truncate(true).open(&marker).expect("marker file");
     for (ui, u) in units.iter().enumerate() {
-        let mk = marker.clone();
+        let mf = &mfile;
         let progress = move |gi: usize| {
-            let _ = std::fs::write(&mk, format!("{ui}:{gi}"));
+            use std::os::unix::fs::FileExt;
+            let _ = mf.write_at(format!("{ui:>6}:{gi:<12}").as_bytes(), 0);
         };
         let cx = ShardCtx { shard, nshards, known, skip: skip.get(&ui).cloned().unwrap_or_default(), progress: &progress };
         let t0 = Instant::now();
@@ -108,7 +116,10 @@ fn worker(args: &[String]) -> i32 {
         r.counters.insert("worker_ms".into(), t0.elapsed().as_millis() as u64);
         results.push(r.to_json());
     }
-    let _ = std::fs::write(&marker, "done");
+    {
+        use std::os::unix::fs::FileExt;
+        let _ = mfile.write_at(format!("{:<19}", "done").as_bytes(), 0);
+    }
     std::fs::write(out, serde_json::to_string(&json!({ "units": results })).unwrap()).unwrap();
     0
 }
@@ -219,7 +230,7 @@ fn run(prop: &str, tier_s: &str) -> i32 {
                 done += 1;
             } else {
                 // the worker died (signal, abort, timeout): find the case it was on
-                let mark = std::fs::read_to_string(&w.marker).unwrap_or_default();
+                let mark: String = std::fs::read_to_string(&w.marker).unwrap_or_default().chars().filter(|c| !c.is_whitespace()).collect();
                 let how = match status {
                     Some(s) => format!("{s}"),
                     None => format!("killed after {:?} (watchdog)", timeout),
@@ -282,6 +293,8 @@ fn run(prop: &str, tier_s: &str) -> i32 {
             println!("KNOWN-FINDING: property={} {} {}", prop, f.key, f.what);
         }
     }
+    // unexplained mismatches first (classification against switches is diagnostic unless listed as known)
+    violations.sort_by_key(|v| v["explained_by"].as_array().map(|a| !a.is_empty()).unwrap_or(false));
     let mut replay_paths = vec![];
     let mut seen = BTreeSet::new();
     for v in &violations {
@@ -367,6 +380,9 @@ fn run(prop: &str, tier_s: &str) -> i32 {
     );
     for u in &merged {
         println!("  unit {}: {} cases, {} mismatches; {}", u.name, u.cases, u.mismatch_count, u.desc);
+        for (k, v) in u.counters.iter().filter(|(k, _)| k.starts_with("mismatch")) {
+            println!("      {k} = {v}");
+        }
     }
     if !crashes.is_empty() && !crash_is_violation {
         println!("note: {} worker process death(s) attributed to single cases and skipped (totality is C20's to report)", crashes.len());
